@@ -58,7 +58,7 @@ def Rel (L : Layout) (rs : List Bytes) (f : Bytes) (a : AState) (s : Rd) : Prop 
   | .start i => i ≤ rs.length ∧ CStart L f (stAt L rs i) (rs.drop i) s
   | .inside i off => i < rs.length ∧ ∃ z, CInside L f z s ∧ z.stR = stAt L rs i ∧ z.rrs = rs.drop (i + 1)
       ∧ z.pre ++ z.c :: z.cs = chunks L.maxPayload (recAt rs i) ∧ off = z.pre.flatten.length + z.j
-  | .eof => s.isEOF = true
+  | .eof => s.isEOF = true ∧ f.drop s.pos = [] ∧ (L.tif ≠ .off → s.tif.tifNext = s.pos)
 
 
 /-- reading a header at the start of record `k` (or at the end of the file) -/
@@ -98,7 +98,7 @@ theorem headAt {L : Layout} {rs : List Bytes} {f : Bytes} (g : Good L rs) {s : R
     obtain ⟨s', e1, hp⟩ := readHead_eof (f := f) L s (stAt L rs k) h.tm h.tl h.pos hd (by omega) hf
     refine ⟨s', e1, ?_, fun hh => absurd hh hlt, fun _ => ⟨?_, hp.eof, hp.atEnd, hp.tn⟩⟩
     · simp only [openRec, hlt, if_false]
-      exact ⟨by rw [hp.sol]; exact hcur, hp.tm, hp.eof⟩
+      exact ⟨by rw [hp.sol]; exact hcur, hp.tm, hp.eof, hp.atEnd, hp.tn⟩
     · unfold Rd.hasLd Rd.hasSuccessor
       rw [hp.ldLen, hp.ldIndex, hp.attr]
       have hs := h.succ
@@ -285,5 +285,109 @@ theorem rs_core {L : Layout} {rs : List Bytes} {f : Bytes} (g : Good L rs) {a : 
         rw [habs]
         simp only [hn, if_false] at e2 hrel2
         exact ⟨s', hrel2, s, hpre, e2⟩
+
+
+/-! ### one operation -/
+
+theorem seek_sim {L : Layout} {rs : List Bytes} (g : Good L rs) {a : AState} {s : Rd}
+    (hrel : Rel L rs (encode L rs) a s) (i : Nat) (hi : i ≤ rs.length) :
+    Rel L rs (encode L rs) ⟨.start i, none⟩ (seekLr s (tellOf L rs i)).1 := by
+  obtain ⟨_, htm, _⟩ := hrel
+  refine ⟨rfl, ⟨htm.1, htm.2⟩, hi, ?_⟩
+  refine ⟨(stAt_pos L rs i).symm, drop_tell L rs i, rfl, rfl, (by simp [seekLr, Rd.hasSuccessor, bitSet]),
+    Nat.le_refl _, ⟨htm.1, htm.2⟩, ?_,
+    stAt_backLe L rs i, fits_at g i, fun r hr => g.rne r (List.mem_of_mem_drop hr)⟩
+  intro _
+  exact ⟨by intro x hx; simp [seekLr, Tif.reset] at hx, by intro hp; simp [seekLr, Tif.reset, Tif.hasPrevious] at hp⟩
+
+theorem read_sim {L : Layout} {rs : List Bytes} {f : Bytes} (g : Good L rs) {a : AState} {s : Rd}
+    (hrel : Rel L rs f a s) (n : Int) (hne : a.ph ≠ .eof) :
+    ∃ s', readLrBytes f s n = .ok (s', (absRead rs a n).2) ∧ Rel L rs f (absRead rs a n).1 s' := by
+  obtain ⟨s', hrel', hm⟩ := rs_core g (.data []) n hrel hne
+  refine ⟨s', ?_, hrel'⟩
+  unfold readLrBytes
+  cases hb : (absRead rs a n).2 with
+  | none => rw [hb] at hm; simp only [hm]
+  | some b =>
+    rw [hb] at hm
+    obtain ⟨s1, e1, e2⟩ := hm
+    simp only [e1, e2, Acc.app, List.nil_append]
+
+theorem skip_sim {L : Layout} {rs : List Bytes} {f : Bytes} (g : Good L rs) {a : AState} {s : Rd}
+    (hrel : Rel L rs f a s) (n : Int) (hne : a.ph ≠ .eof) :
+    ∃ s', skipLrBytes f s n = .ok (s', match (absRead rs a n).2 with | some b => b.length | none => 0)
+      ∧ Rel L rs f (absRead rs a n).1 s' := by
+  obtain ⟨s', hrel', hm⟩ := rs_core g (.cnt 0) n hrel hne
+  refine ⟨s', ?_, hrel'⟩
+  unfold skipLrBytes
+  cases hb : (absRead rs a n).2 with
+  | none => rw [hb] at hm; simp only [hm]
+  | some b =>
+    rw [hb] at hm
+    obtain ⟨s1, e1, e2⟩ := hm
+    simp only [e1, e2, Acc.app, Nat.zero_add]
+
+
+theorem absRead_start_neg (rs : List Bytes) (k : Nat) (cur : Option Nat) (hk : k < rs.length)
+    (hne : recAt rs k ≠ []) :
+    absRead rs ⟨.start k, cur⟩ (-1) = (⟨.start (k + 1), some k⟩, some (recAt rs k)) := by
+  have hlen : 0 < (recAt rs k).length := List.length_pos_iff.mpr hne
+  have hnot : ¬ (0 ≥ (recAt rs k).length) := by omega
+  simp [absRead, openRec, hk, hnot]
+
+theorem absRead_start_end (rs : List Bytes) (k : Nat) (cur : Option Nat) (hk : ¬ k < rs.length) (n : Int) :
+    absRead rs ⟨.start k, cur⟩ n = (⟨.eof, cur⟩, none) := by
+  simp [absRead, openRec, hk]
+
+theorem absRead_inside_neg (rs : List Bytes) (i off : Nat) (cur : Option Nat) :
+    absRead rs ⟨.inside i off, cur⟩ (-1)
+      = (⟨.start (i + 1), cur⟩, if off ≥ (recAt rs i).length then none else some ((recAt rs i).drop off)) := by
+  by_cases h : off ≥ (recAt rs i).length <;> simp [absRead, openRec, h]
+
+theorem next_sim {L : Layout} {rs : List Bytes} {f : Bytes} (g : Good L rs) {a : AState} {s : Rd}
+    (hrel : Rel L rs f a s) (hne : a.ph ≠ .eof) :
+    ∃ s' c, skipToNextLr f s = .ok (s', c) ∧ (absStep L rs a .next).2 = .count c
+      ∧ Rel L rs f (absStep L rs a .next).1 s' := by
+  obtain ⟨s1, e1, hrel1⟩ := skip_sim g hrel (-1) hne
+  obtain ⟨ph, cur⟩ := a
+  cases ph with
+  | eof => exact absurd rfl hne
+  | start k =>
+    by_cases hk : k < rs.length
+    · have hrne : recAt rs k ≠ [] := g.rne _ (by unfold recAt; simp [hk])
+      rw [absRead_start_neg rs k cur hk hrne] at e1 hrel1
+      simp only [] at e1 hrel1
+      obtain ⟨hsol, htm, hk1, hst⟩ := hrel1
+      obtain ⟨s2, e2, hrel2, _, _⟩ := headAt g (k + 1) (some k) hk1 hst hsol
+      refine ⟨s2, (recAt rs k).length, ?_, ?_, ?_⟩
+      · unfold skipToNextLr
+        simp only [e1, hst.mrh, not_true_eq_false, and_false, if_false, e2]
+      · simp [absStep, hk]
+      · simpa [absStep, hk, gotoNext] using hrel2
+    · rw [absRead_start_end rs k cur hk] at e1 hrel1
+      simp only [] at e1 hrel1
+      obtain ⟨hsol, htm, heof, hend, htn⟩ := hrel1
+      obtain ⟨s2, e2, f1, f2, f3, f4, f5⟩ := readHead_atEnd (f := f) L s1 htm hend htn
+      refine ⟨s2, 0, ?_, ?_, ?_⟩
+      · unfold skipToNextLr
+        simp only [e1, ne_eq, not_true_eq_false, false_and, if_false, e2]
+      · simp [absStep, hk]
+      · simp only [absStep, hk, if_false]
+        exact ⟨by rw [f2]; exact hsol, f3, f1, f4, f5⟩
+  | inside i off =>
+    rw [absRead_inside_neg] at e1 hrel1
+    simp only [] at hrel1
+    obtain ⟨hsol, htm, hk1, hst⟩ := hrel1
+    obtain ⟨s2, e2, hrel2, _, _⟩ := headAt g (i + 1) cur hk1 hst hsol
+    refine ⟨s2, (recAt rs i).length - off, ?_, ?_, ?_⟩
+    · unfold skipToNextLr
+      by_cases hex : off ≥ (recAt rs i).length
+      · simp only [hex, if_true] at e1
+        have : (recAt rs i).length - off = 0 := by omega
+        simp only [e1, ne_eq, not_true_eq_false, false_and, if_false, e2, this]
+      · simp only [hex, if_false, List.length_drop] at e1
+        simp only [e1, hst.mrh, not_true_eq_false, and_false, if_false, e2]
+    · simp [absStep]
+    · simpa [absStep, gotoNext] using hrel2
 
 end TD.C05
